@@ -111,6 +111,18 @@ Non-trivial = every case (distinct by file bytes).".into();
         let w = write_file(&mut r, &mut counters, &style, version, &[Revision { objects: objs.clone(), trailer_extra: extra.clone() }]);
         check_file(c, &w.bytes, &objs, &extra, version, helper_from, i < 3, &style);
     }
+    // objects redefined by a later revision (plain over compressed and compressed over plain): what the file defines
+    // is the newest definition. (Numbers in object streams of TWO revisions are C07/C08's registered finding.)
+    for i in 0..c.n(300, 4000) {
+        let Some(mut r) = c.case("two_revisions", i) else { continue };
+        let (revs, latest) = crate::props::c07::gen_history(&mut r, 1);
+        let mut style = gen_style(&mut r); style.xref = XrefStyle::Stream; style.objstm = true; style.junk_before_header = false;
+        let which = r.usize(2);
+        let version = "1.6";
+        let helper_from = latest.keys().map(|k| k.0).max().unwrap() + 1;
+        let w = write_file_with(&mut r, &mut counters, &style, version, &revs, &|ri| ri == which);
+        check_file(c, &w.bytes, &latest, &revs[0].trailer_extra, version, helper_from, false, &style);
+    }
     // witness stream for F-C02-a: raw CR / CRLF inside literal strings must read as LF (ISO 32000-1 7.3.4.2)
     for i in 0..c.n(40, 400) {
         let Some(mut r) = c.case("rawcr", i) else { continue };
